@@ -115,6 +115,7 @@ func (n *node) release() {
 	}
 
 	n.released = true
+	verifReleased(n)
 	n.mu.Unlock()
 	verifYield("release.unlocked")
 
@@ -132,6 +133,7 @@ func (n *node) release() {
 		from.mu.Unlock()
 
 		if shouldRelease {
+			verifYield("release.decided")
 			from.release()
 		}
 	}
